@@ -72,6 +72,13 @@ Theorem C07_strip_punct_shrinks : forall U steps s,
 Proof. exact strip_punct_length_le. Qed.
 Print Assumptions C07_strip_punct_shrinks.
 
+(* strip_punct invents nothing: every character of the normalised antecedent occurs in the written one, so the
+   containment test against party names never succeeds on characters the document does not contain *)
+Theorem C07_strip_punct_chars : forall U steps s x,
+  In x (strip_punct U steps s) -> In x s.
+Proof. exact strip_punct_chars. Qed.
+Print Assumptions C07_strip_punct_chars.
+
 (* non-vacuity: the live chain on a concrete antecedent *)
 Example C07_strip_punct_example :
   strip_punct Gen.Unicode.U Gen.StripPunct.strip_punct_steps
